@@ -8,7 +8,7 @@ PROOF_MODULES = ["GrpcProofs.Properties.C34"]
 THEOREMS = ["GrpcProofs.C34." + t for t in (
     "constants_pinned", "dedup_spec", "interleave_perm", "interleave_preserves_family_order",
     "interleave_starts_with_first_address", "preprocess_ok", "ready_reported_only_for_raw_ready",
-    "others_shut_down_on_ready", "connect_order_is_list_order", "tf_after_all_failed", "sticky_tf_counterexample")]
+    "pick_returns_only_ready_subconn", "others_shut_down_on_ready", "connect_order_is_list_order", "tf_after_all_failed", "sticky_tf_counterexample")]
 DESIGN_REF = "DESIGN.md section 8, C34"
 TECHNIQUE = ("Lean 4 theorems (list induction for de-dup/interleave, invariants by induction over op lists for the balancer) about a "
              "full port of the pick_first state machine + T2 differential correspondence on the real balancer (recording ClientConn and "
